@@ -43,7 +43,8 @@ type config struct {
 }
 
 type gen struct {
-	r *rand.Rand
+	r    *rand.Rand
+	wide bool // parallel clause: more wide events, so that one Do takes longer and overlaps with others
 }
 
 func (g *gen) pick(s []string) string { return s[g.r.Intn(len(s))] }
@@ -238,6 +239,9 @@ func (g *gen) object(vocab []string, depth, maxDepth int, top bool) *node {
 			cnt = 2
 		}
 	}
+	if top && g.wide && g.r.Intn(100) < 35 {
+		cnt = 17 + g.r.Intn(70)
+	}
 	n := &node{kind: kObj}
 	used := map[string]bool{}
 	perm := g.r.Perm(len(vocab))
@@ -412,8 +416,8 @@ func (g *gen) event(cfg *config, i int) *eventCase {
 	return ec
 }
 
-func genConfig(seed int64, idx, nEvents int, thorough bool) *config {
-	g := &gen{r: rand.New(rand.NewSource(seed))}
+func genConfig(seed int64, idx, nEvents int, thorough, wide bool) *config {
+	g := &gen{r: rand.New(rand.NewSource(seed)), wide: wide}
 	cfg := &config{Idx: idx}
 	cfg.vocab = g.vocab()
 	cfg.paths, cfg.overlap, cfg.duplicate = g.pathSet(cfg.vocab, thorough)
